@@ -45,6 +45,48 @@ def run(repo, chk):
     rule_d(repo, chk)
     rule_e(repo, chk)
     rule_f(repo, chk)
+    rule_g(repo, chk)
+
+
+def rule_g(repo, chk):
+    """The loop thread takes events out of the shared FIFO without a lock: it may only remove entries one at a time
+    (deque.popleft is atomic) and only as many as it counted; bulk operations on the live FIFO (clear, rebinding,
+    copying it wholesale) discard or duplicate what another thread appends in between."""
+    chk.rule('C03.g', 'the flush takes entries out of the live FIFO only with popleft, never with clear()/rebinding/bulk copy')
+    q = repo.cls(MANAGER, '_EventQueue')
+    d = q.methods.get('dispatchEvents')
+    need(d, 'C03.g: _EventQueue.dispatchEvents missing')
+    chk.touch(d)
+    fifo = None
+    init = q.methods.get('__init__')
+    for n in walk_no_defs(init.node):
+        if isinstance(n, ast.Assign) and isinstance(n.value, ast.Call) and call_name(n.value) == 'deque':
+            fifo = n.targets[0].attr
+    need(fifo, 'C03.g: the FIFO attribute of _EventQueue was not found')
+    full = f'self.{fifo}'
+    bad = []
+    for m in q.methods.values():
+        if m.name in ('__init__',):
+            continue
+        for n in walk_no_defs(m.node):
+            if isinstance(n, ast.Call) and isinstance(n.func, ast.Attribute) and src(n.func.value) == full and n.func.attr in ('clear', 'pop', 'remove', 'rotate', 'reverse', 'copy'):
+                bad.append((m, n, f'`{src(n)}`'))
+            if isinstance(n, (ast.Assign, ast.AugAssign)) and any(recv == 'self' and a == fifo for recv, a, _v in pat.attr_store(n)):
+                bad.append((m, n, f'`{src(n)[:50]}` rebinds the FIFO'))
+            if isinstance(n, ast.Call) and any(src(a) == full for a in n.args) and not (isinstance(n.func, ast.Name) and n.func.id == 'len'):
+                bad.append((m, n, f'`{src(n)[:60]}` reads the live FIFO wholesale'))
+            if isinstance(n, (ast.For, ast.comprehension)) and src(n.iter) == full:
+                bad.append((m, n, 'iterates the live FIFO'))
+    chk.ob('g', q.ref, 'the loop removes entries from its own FIFO only through popleft (atomic per entry); nothing a concurrent fire() appends can be discarded or copied twice',
+           not bad, bad[0][0].loc(bad[0][1]) if bad else q.module.relpath, detail='; '.join(f'{m.name}: {w}' for m, _n, w in bad[:4]), discr='fifo-atomic-removal')
+    g = d.cfg()
+    pops = [n for n in g.nodes if n.kind in ('stmt', 'test') and any(r == full for r, _c in pat.method_calls(n.ast, 'popleft'))]
+    chk.ob('g', d.ref, 'the flush takes entries with popleft', bool(pops), loc(d, d.node), discr='popleft-used')
+    for pn in pops:
+        loops = [a for k, a in pn.ctx if k == 'loop']
+        ok = bool(loops) and isinstance(loops[-1], ast.While) and not (f'len({full})' in src(loops[-1].test) or src(loops[-1].test) == full)
+        chk.ob('g', d.ref, 'the number of entries taken is the count snapshotted before (not "until the FIFO is empty", which races with concurrent appends '
+                           'and breaks the pass snapshot)', ok, loc(d, pn.ast), discr='snapshot-bounded')
 
 
 def _under(n, lock):
